@@ -279,6 +279,114 @@ fn duplicate_cases() -> Vec<Case> {
     v
 }
 
+/// one accepted and one rejected schema (at least) for every rule the property lists; a second line behind the Verus
+/// units that prove the per-kind checkers (ts_leaf, ts_enum, ts_simple, ts_object, tsdoc, dirs, args), for rewrites
+/// that leave a unit undecided
+fn rule_cases() -> Vec<Case> {
+    let mut v = vec![];
+    let q = "type Query { q: Int }\n";
+    let mut add = |rule: &str, schema: &str, expect_valid: bool| {
+        v.push(Case { family: "type-system rules", label: format!("{rule}: {}", schema.replace('\n', " ")), schema: format!("{q}{schema}\n"), expect_valid, why: if expect_valid { format!("the schema satisfies the rule `{rule}` and every other rule") } else { format!("the schema breaks the rule `{rule}`") } })
+    };
+    // reserved names
+    add("reserved __ names", "type __T { a: Int }", false);
+    add("reserved __ names", "type T { __a: Int }", false);
+    add("reserved __ names", "type T { a(__x: Int): Int }", false);
+    add("reserved __ names", "interface __I { a: Int }", false);
+    add("reserved __ names", "input __N { a: Int }", false);
+    add("reserved __ names", "input N { __a: Int }", false);
+    add("reserved __ names", "enum __E { A }", false);
+    add("reserved __ names", "union __U = Query", false);
+    add("reserved __ names", "scalar __S", false);
+    add("reserved __ names", "directive @__d on FIELD", false);
+    add("reserved __ names", "directive @d(__x: Int) on FIELD", false);
+    add("reserved __ names", "type T_ { _a(x__: Int): Int }\nenum E_ { A__ }\ndirective @d_(x_: Int) on FIELD", true);
+    // duplicates
+    add("duplicate fields", "type T { a: Int a: Int }", false);
+    add("duplicate fields", "type T { a: Int b: String a: String }", false);
+    add("duplicate fields", "interface I { a: Int a: Int }", false);
+    add("duplicate fields", "input N { a: Int a: Int }", false);
+    add("duplicate fields", "type T { a: Int }\nextend type T { a: Int }", false);
+    add("duplicate fields", "type T { a: Int b: Int }\ninterface I { a: Int b: Int }\ninput N { a: Int b: Int }", true);
+    add("duplicate arguments", "type T { a(x: Int, x: Int): Int }", false);
+    add("duplicate arguments", "directive @d(x: Int, x: Int) on FIELD", false);
+    add("duplicate arguments", "type T { a(x: Int, y: Int): Int b(x: Int): Int }", true);
+    add("duplicate enum values", "enum E { A B A }", false);
+    add("duplicate enum values", "enum E { A }\nextend enum E { A }", false);
+    add("duplicate enum values", "enum E { A B }\nenum F { A B }", true);
+    add("duplicate union members", "type A { a: Int }\nunion U = A | A", false);
+    add("duplicate union members", "type A { a: Int }\nunion U = A\nextend union U = A", false);
+    add("duplicate union members", "type A { a: Int }\ntype B { b: Int }\nunion U = A | B\nunion V = A | B", true);
+    // unknown types
+    add("unknown types", "type T { a: Nope }", false);
+    add("unknown types", "type T { a(x: Nope): Int }", false);
+    add("unknown types", "type T { a: [Nope!]! }", false);
+    add("unknown types", "input N { a: Nope }", false);
+    add("unknown types", "union U = Nope", false);
+    add("unknown types", "type T implements Nope { a: Int }", false);
+    add("unknown types", "directive @d(x: Nope) on FIELD", false);
+    add("root operation types are defined object types", "schema { query: Nope }", false);
+    add("root operation types are defined object types", "enum E { A }\nschema { query: Query mutation: E }", false);
+    add("root operation types are defined object types", "type M { m: Int }\nschema { query: Query mutation: M }", true);
+    add("unknown types", "type T { a: [T!]! b(x: N): E }\ninput N { a: N }\nenum E { A }", true);
+    // input vs output
+    add("input types in output positions", "input N { a: Int }\ntype T { a: N }", false);
+    add("input types in output positions", "input N { a: Int }\ninterface I { a: [N] }", false);
+    add("output types in input positions", "type A { a: Int }\ntype T { a(x: A): Int }", false);
+    add("output types in input positions", "type A { a: Int }\ninput N { a: A }", false);
+    add("output types in input positions", "interface I { a: Int }\ninput N { a: [I!] }", false);
+    add("output types in input positions", "type A { a: Int }\nunion U = A\ndirective @d(x: U) on FIELD", false);
+    add("output types in input positions", "enum E { A }\nscalar S\ninput N { a: E b: S c: N }\ntype T { a(x: E, y: S, z: N): E b: S }", true);
+    // implements
+    add("non-interface implements", "type A { a: Int }\ntype T implements A { a: Int }", false);
+    add("non-interface implements", "union U = Query\ntype T implements U { q: Int }", false);
+    add("non-interface implements", "scalar S\ninterface I implements S { a: Int }", false);
+    add("self implements", "interface I implements I { a: Int }", false);
+    add("missing transitive interfaces", "interface A { a: Int }\ninterface B implements A { a: Int }\ntype T implements B { a: Int }", false);
+    add("missing transitive interfaces", "interface A { a: Int }\ninterface B implements A { a: Int }\ninterface C implements B { a: Int }", false);
+    add("missing transitive interfaces", "interface A { a: Int }\ninterface B implements A { a: Int }\ntype T implements B & A { a: Int }\ninterface C implements A & B { a: Int }", true);
+    add("interface fields", "interface A { a: Int }\ntype T implements A { b: Int }", false);
+    add("interface fields", "interface A { a: Int }\ntype T implements A { a: String }", false);
+    add("interface fields", "interface A { a(x: Int): Int }\ntype T implements A { a: Int }", false);
+    add("interface fields", "interface A { a(x: Int): Int }\ntype T implements A { a(x: Int, y: Int!): Int }", false);
+    add("interface fields", "interface A { a(x: Int): Int }\ntype T implements A { a(x: Int, y: Int): Int! b: Int }", true);
+    // union members
+    add("non-object union members", "interface I { a: Int }\nunion U = I", false);
+    add("non-object union members", "scalar S\nunion U = S", false);
+    add("non-object union members", "enum E { A }\nunion U = Query | E", false);
+    add("non-object union members", "input N { a: Int }\nunion U = N", false);
+    add("non-object union members", "type A { a: Int }\nunion V = A\nunion U = V", false);
+    // directive applications
+    add("unknown directive applications", "type T @nope { a: Int }", false);
+    add("unknown directive applications", "type T { a: Int @nope }", false);
+    add("unknown directive applications", "type T { a(x: Int @nope): Int }", false);
+    add("unknown directive applications", "enum E { A @nope }", false);
+    add("unknown directive applications", "input N { a: Int @nope }", false);
+    add("unknown directive applications", "scalar S @nope", false);
+    add("unknown directive applications", "union U @nope = Query", false);
+    add("unknown directive applications", "schema @nope { query: Query }", false);
+    add("misplaced directive applications", "directive @d on FIELD\ntype T @d { a: Int }", false);
+    add("misplaced directive applications", "directive @d on OBJECT\ntype T { a: Int @d }", false);
+    add("misplaced directive applications", "directive @d on OBJECT\ninterface I @d { a: Int }", false);
+    add("misplaced directive applications", "directive @d on FIELD_DEFINITION\ninput N { a: Int @d }", false);
+    add("misplaced directive applications", "directive @d on ENUM\nenum E { A @d }", false);
+    add("misplaced directive applications", "directive @d on ARGUMENT_DEFINITION\ninput N { a: Int @d }", false);
+    add("misplaced directive applications", "type T { a: Int @skip(if: true) }", false);
+    add("misplaced directive applications", "directive @d on OBJECT | INTERFACE | UNION | ENUM | ENUM_VALUE | SCALAR | INPUT_OBJECT | INPUT_FIELD_DEFINITION | FIELD_DEFINITION | ARGUMENT_DEFINITION | SCHEMA\ntype T @d { a(x: Int @d): Int @d }\ninterface I @d { a: Int @d }\nunion U @d = T\nenum E @d { A @d }\nscalar S @d\ninput N @d { a: Int @d }\nschema @d { query: Query }", true);
+    add("misplaced directive applications", "type T { a: Int @deprecated }\nenum E { A @deprecated(reason: \"r\") }", true);
+    add("repeated directive applications", "directive @d on OBJECT\ntype T @d @d { a: Int }", false);
+    add("repeated directive applications", "type T { a: Int @deprecated @deprecated }", false);
+    add("repeated directive applications", "directive @d repeatable on OBJECT | FIELD_DEFINITION\ntype T @d @d { a: Int @d @d @d }", true);
+    add("ill-typed directive applications", "directive @d(x: Int!) on OBJECT\ntype T @d { a: Int }", false);
+    add("ill-typed directive applications", "directive @d(x: Int!) on OBJECT\ntype T @d(x: \"s\") { a: Int }", false);
+    add("ill-typed directive applications", "directive @d(x: Int!) on OBJECT\ntype T @d(x: 1, y: 2) { a: Int }", false);
+    add("ill-typed directive applications", "directive @d(x: Int!, y: [String!] = [\"a\"]) on OBJECT\ntype T @d(x: 1, y: \"single\") { a: Int }", true);
+    add("recursive directive definitions", "directive @d(x: Int @d) on ARGUMENT_DEFINITION", false);
+    add("recursive directive definitions", "directive @d(x: Int @e) on ARGUMENT_DEFINITION\ndirective @e(x: Int @d) on ARGUMENT_DEFINITION", false);
+    add("recursive directive definitions", "directive @d(x: Int @e) on ARGUMENT_DEFINITION\ndirective @e(x: Int) on ARGUMENT_DEFINITION", true);
+    v
+}
+
 fn main() {
     let args: Vec<String> = std::env::args().collect();
     let thorough = args.get(1).map(|a| a == "thorough").unwrap_or(false);
@@ -287,6 +395,7 @@ fn main() {
     let mut cases = implementation_cases(thorough);
     cases.extend(directive_cases(thorough));
     cases.extend(duplicate_cases());
+    cases.extend(rule_cases());
     let tmp = std::env::temp_dir().join(format!("vx-tsverdict-{}", std::process::id()));
     let config = "schema: ./schema/*.graphql\n".to_string();
     let results = cli::par_map(cases.len(), &tmp, |i, dir| {
